@@ -158,6 +158,7 @@ def oracle(ctx):
     ctx.note("worst WGS-84 round-trip relative error = %.3g" % worst)
     _oracle_observer_arrays(ctx)
     _oracle_batches(ctx)
+    _oracle_dateline(ctx)
     _oracle_polar(ctx)
 
 
@@ -241,6 +242,40 @@ def _check_batch(ctx, a, b, tisos, nan_cols, o=None):
     return bad
 
 
+def _check_dateline(ctx, tiso, r_km, z_km, delta):
+    """A position whose longitude is (within delta rad of) exactly 180 deg: reported longitude in (-180, 180], round trip."""
+    from pyorbital import astronomy, geoloc
+    t = dt.datetime.fromisoformat(tiso)
+    g = float(astronomy.gmst(t))
+    ang = g + math.pi + delta
+    pos = np.array([r_km * math.cos(ang), r_km * math.sin(ang), z_km])
+    lon, lat, alt = [float(x) for x in geoloc.get_lonlatalt(pos, t)]
+    case = {"dateline": True, "utc": tiso, "r_km": r_km, "z_km": z_km, "delta": delta}
+    bad = 0
+    if not (-180.0 < lon <= 180.0):
+        ctx.violation("lon_range", case, lon, "(-180, 180]", site="geoloc.get_lonlatalt")
+        bad += 1
+    if abs(abs(lon) - 180.0) > 1e-6 + abs(math.degrees(delta)) * 1.001:
+        ctx.violation("dateline_longitude", case, lon, "within %g deg of +-180" % (1e-6 + abs(math.degrees(delta))), site="geoloc.get_lonlatalt")
+        bad += 1
+    back = geo.geodetic_to_eci(lon, lat, alt, geo.gmst_ref(t))
+    err = float(np.linalg.norm(back - pos) / np.linalg.norm(pos))
+    if not err <= 2e-6:
+        ctx.violation("roundtrip", case, {"lonlatalt": [lon, lat, alt], "rel_err": err}, "<= 2e-6 |r|", site="geoloc.get_lonlatalt")
+        bad += 1
+    return bad
+
+
+def _oracle_dateline(ctx):
+    r = ctx.rng
+    for _ in range(ctx.size(120, 3000)):
+        t = dt.datetime(2000, 1, 1) + dt.timedelta(seconds=r.uniform(-20 * 365 * 86400, 40 * 365 * 86400))
+        delta = r.choice([0.0, 0.0, 1e-16, -1e-16, 4e-16, -4e-16, 1e-12, -1e-12, 1e-9, -1e-9])
+        ctx.count("eval_oracle_dateline")
+        ctx.distinct(("dateline", t.isoformat(), delta))
+        _check_dateline(ctx, t.isoformat(), r.uniform(3000, 42000), r.uniform(-7000, 7000), delta)
+
+
 def _oracle_batches(ctx):
     r = ctx.rng
     for (a, b, o) in orbitals(ctx, ctx.size(8, 60)):
@@ -300,6 +335,10 @@ def match_known(entry, v):
 def replay(ctx, case):
     from pyorbital import orbital
     inp = case.get("input", case)
+    if inp.get("dateline"):
+        bad = _check_dateline(ctx, inp["utc"], inp["r_km"], inp["z_km"], inp["delta"])
+        print("date-line case", inp, "violations", bad)
+        return 1 if bad else 0
     if "lons" in inp:
         n0 = len(ctx.violations)
         _check_observer_array(ctx, inp["kind"], inp["lons"], inp["lats"], inp["alts"], dt.datetime.fromisoformat(inp["utc"]))
